@@ -10,7 +10,9 @@ R(q) == [i \in 1..Len(q) |-> SeqOfSet(q[i])]
 Enc(cr, n) == [s \in 1..n |-> Code(cr[s - 1])]
 Narrow == {[reqs |-> R(q), notImpl |-> <<>>, creds |-> SetToSeq({Enc(c, N) : c \in Creds}), n |-> N, wide |-> FALSE] : q \in Structures}
 WideV == {[reqs |-> R(q), notImpl |-> <<>>, creds |-> SetToSeq({Enc(c, 20) : c \in WideCreds(q)}), n |-> 20, wide |-> TRUE] : q \in Wide}
-GenOnly == {[reqs |-> R(q), notImpl |-> <<x>>, creds |-> <<>>, n |-> N, wide |-> FALSE] : q \in {s \in Structures : Len(s) <= 2}, x \in Schemes}
+\* credentials for a structure with a not-implemented scheme x: nothing can be presented for x
+CredsWithout(x) == {c \in Creds : c[x] = "absent"}
+GenOnly == {[reqs |-> R(q), notImpl |-> <<x>>, creds |-> SetToSeq({Enc(c, N) : c \in CredsWithout(x)}), n |-> N, wide |-> FALSE] : q \in {s \in Structures : Len(s) <= 2}, x \in Schemes}
            \cup {[reqs |-> R(q), notImpl |-> <<9>>, creds |-> <<>>, n |-> 10, wide |-> FALSE] : q \in {<<0..9>>, <<0..9, {0}>>, <<{0}, 0..9>>, <<0..8, {9}, {0}>>}}
 ASSUME ndJsonSerialize(IOEnv.VERIF_VECTORS, SetToSeq(Narrow \cup WideV \cup {g \in GenOnly : \E i \in 1..Len(g.reqs) : g.notImpl[1] \in Range(g.reqs[i])}))
 EInit == reqs = <<>> /\ notImpl = {} /\ cred = <<>> /\ st = InitRT
